@@ -11,6 +11,7 @@ import (
 	"github.com/privacybydesign/gabi/big"
 	"github.com/privacybydesign/gabi/gabikeys"
 	"github.com/privacybydesign/gabi/rangeproof"
+	"github.com/privacybydesign/gabi/verifhooks"
 
 	"verifharness/mon"
 	"verifharness/refimpl"
@@ -150,7 +151,7 @@ func (x *c12ctx) verifyAndJudge(family, desc string, d *gabi.ProofD, cred *world
 }
 
 func runC12(r *mon.Run) {
-	r.Assume("no trapdoor adversary here: a prover who knows ord(QR_n) can shift k by a multiple of the group order on toy keys; that is outside the property")
+	r.Assume("k shifted by a multiple of ord(QR_n) is outside the property (a prover who knows the group order can do that on toy keys); the one trapdoor family used, square roots modulo ord for a false statement, must be stopped by the response size limits")
 	key := world.Fixture("toy256a")
 	x := &c12ctx{r: r, key: key, table: rangeproof.GenerateSquaresTable(4096)}
 	maxM := int64(r.Pick(8, 24))
@@ -207,6 +208,7 @@ func runC12(r *mon.Run) {
 	r.FloorFam("box-false-ref", 500)
 	r.FloorFam("oracle", 500)
 	r.FloorFam("edge-api", 20)
+	r.FloorFam("trapdoor-sqrt", 8)
 	r.FloorFam("edge-ref", 20)
 	r.FloorFam("transplant", 50)
 	r.FloorFam("alter", 100)
@@ -282,13 +284,17 @@ func c12Descriptor(x *c12ctx, jr *rand.Rand, cred *world.Cred, m int64, sign int
 
 // refRangeProof builds a proof with one range proof from the reference provers.
 func refRangeProof(x *c12ctx, cred *world.Cred, D []int, attach int, claimM *big.Int, sign int, a uint, k *big.Int, ld uint, ds []*big.Int, ctx, nonce *big.Int, keyIdx int) *gabi.ProofD {
+	return refRangeProofV(x, cred, D, attach, claimM, sign, a, k, ld, ds, nil, ctx, nonce, keyIdx)
+}
+
+func refRangeProofV(x *c12ctx, cred *world.Cred, D []int, attach int, claimM *big.Int, sign int, a uint, k *big.Int, ld uint, ds, vs []*big.Int, ctx, nonce *big.Int, keyIdx int) *gabi.ProofD {
 	dis, hid := hiddenOf(cred, D)
 	p := refimpl.NewDProver(x.key.PK, cred.C.Signature, dis, hid)
 	mr := p.R[attach]
 	if mr == nil {
 		mr = refimpl.RandBits(592)
 	}
-	rp := &refimpl.RangeProver{PK: x.key.PK, Index: attach, M: claimM, MRand: mr, Sign: sign, A: a, K: k, Ld: ld, D: ds}
+	rp := &refimpl.RangeProver{PK: x.key.PK, Index: attach, M: claimM, MRand: mr, Sign: sign, A: a, K: k, Ld: ld, D: ds, V: vs}
 	p.Extra = rp.Commit()
 	c := refimpl.Challenge(ctx, nonce, p.Commit(), false)
 	dd := p.Respond(c)
@@ -344,6 +350,29 @@ func c12Edges(x *c12ctx, jr *rand.Rand, idx int) {
 			continue
 		}
 		x.verifyAndJudge("edge-api", fmt.Sprintf("m=%d %s", m, a.name), d, cred, ctx, nonce, true)
+	}
+	// ---- issuer-level adversary: a FALSE statement m >= m+7 proved with square roots modulo ord(QR_n). The relation holds in the
+	// exponent; only the size limits on the d responses stand between this prover and an accepted false inequality.
+	{
+		ord := x.key.Ord
+		pp, qp := x.key.SK.PPrime, x.key.SK.QPrime
+		delta := bi(-7) // m - (m+7)
+		for d2 := int64(0); d2 < 200; d2++ {
+			t := new(big.Int).Mod(sub(delta, bi(d2*d2)), ord)
+			rt, ok := verifhooks.ModSqrt(t, []*big.Int{pp, qp})
+			if !ok {
+				continue
+			}
+			var d *gabi.ProofD
+			pv, _ := mon.Try(func() {
+				// no hider on the huge root (a cheater does not need zero-knowledge), so that v5 stays small
+				d = refRangeProofV(x, cred, []int{1}, 2, cred.NormLedger(2), 1, 1, bi(m+7), 128, []*big.Int{rt, bi(d2), bi(0), bi(0)}, []*big.Int{bi(0)}, ctx, nonce, 2)
+			})
+			if pv == nil && d != nil {
+				x.verifyAndJudge("trapdoor-sqrt", fmt.Sprintf("m=%d claims m >= m+7 with d_1 = sqrt(-7-%d^2) mod ord (%d bits)", m, d2, rt.BitLen()), d, cred, ctx, nonce, false)
+			}
+			break
+		}
 	}
 	// ---- through the reference prover: true relation m >= 1 (delta = m-1) with odd descriptor fields
 	delta := bi(m - 1)
